@@ -83,7 +83,7 @@ func ruleC10b(c *Ctx, rule string) {
 	// only non-empty key bytes are hashed, and in the order of the key list
 	var rng *ssa.BasicBlock
 	for _, l := range loopsOf(pf) {
-		if isRangeHeader(l.header) {
+		if isRangeHeader(l.header) || isAscendingIndexLoop(l) {
 			rng = l.header
 		}
 	}
@@ -154,6 +154,9 @@ func init() {
 		Explanation: "Decides the structural clause 'leader routing and follower filtering are the same function of the same keys, and the hash is reset per point': single routing function, exact inPartition equality, Reset-before-use typestate, canonical (in-place sorted) key lists on both sides, and (with C11.b) whole-query pushdown only for partition-confined groups.",
 		NotDecided:  []string{"end-to-end equality of results with a standalone database", "plan splitting beyond the pushdown predicate (see C11)", "timing / catch-up of followers"},
 		Assumptions: []string{"murmur3 New32/Write/Sum32 are deterministic"},
-		Rules: []func(*Ctx){func(c *Ctx) { ruleC10a(c, "C10.a") }, func(c *Ctx) { ruleC10b(c, "C10.b") }, func(c *Ctx) { ruleC10c(c, "C10.c") }, func(c *Ctx) { ruleC11b(c, "C10.d") }, func(c *Ctx) { ruleC12b(c, "C10.e") }, func(c *Ctx) { ruleC12c(c, "C10.f") }, func(c *Ctx) { ruleC12h(c, "C10.g") }},
+		Rules: []func(*Ctx){func(c *Ctx) { ruleC10a(c, "C10.a") }, func(c *Ctx) { ruleC10b(c, "C10.b") }, func(c *Ctx) { ruleC10c(c, "C10.c") }, func(c *Ctx) { ruleC11b(c, "C10.d") }, func(c *Ctx) { ruleC12b(c, "C10.e") }, func(c *Ctx) { ruleC12c(c, "C10.f") }, func(c *Ctx) { ruleC12h(c, "C10.g") }, func(c *Ctx) {
+			c.describe("C10.h", "= C01.b: on a follower every entry passes the table's own partition test before it is stored")
+			ruleC01b(c, "C10.h")
+		}, func(c *Ctx) { ruleC12a(c, "C10.i") }},
 	})
 }
